@@ -29,9 +29,9 @@ func init() {
 			NotCovered: "equality of payloads across transports, framing arithmetic, message contents; the DNSCrypt goroutines " +
 				"belong to the dnscrypt library.",
 			Rules: map[string]string{
-				"C01-R1": "acceptMsg decision table", "C01-R2": "serveDNSMsgInternal gate/effect table",
+				"C01-R1": "acceptMsg decision table", "C01-R2": "serveDNS (undecodable input dropped) and serveDNSMsgInternal gate/effect tables",
 				"C01-R3": "at most one write event per ResponseWriter parameter on every path",
-				"C01-R4": "DoQ glue: one wire write, from this request's recorder or SERVFAIL", "C01-R5": "defer handlePanicAndRecover dominates serving",
+				"C01-R4": "DoQ and DoH glue: one answer per request, from this request's recorder (SERVFAIL / HTTP 500 when nothing was written, HTTP 400 for undecodable requests)", "C01-R5": "defer handlePanicAndRecover dominates serving",
 				"C01-R6": "a request context handed to a worker closure is cancelled only by the worker",
 				"C01-R7": "responses rebuilt from cached messages are initialised from this request (SetReply/SetRcode)",
 			},
@@ -243,9 +243,9 @@ func (s *c01Summ) noWriteOnEdge(e an.CondEdge, call *ssa.Call) bool {
 
 func runC01(c *an.Ctx) {
 	c.Floor("C01-R1", 1)
-	c.Floor("C01-R2", 1)
+	c.Floor("C01-R2", 2)
 	c.Floor("C01-R3", 20)
-	c.Floor("C01-R4", 1)
+	c.Floor("C01-R4", 2)
 	c.Floor("C01-R5", 6)
 
 	dnsConst := func(name string) int64 {
@@ -468,6 +468,108 @@ func runC01(c *an.Ctx) {
 				return ""
 			}
 			return "exactly one stream write of the normalised, packed " + resp + "; got writes " + fmt.Sprint(wr) + " normalised " + normalized
+		},
+	})
+
+	// ---- R2b: undecodable bytes are dropped, decodable ones served with the same writer
+	decide(c, "C01-R2", "dnsserver.(*ServerBase).serveDNS", an.DecideCfg{
+		Dom: an.Domain{"unpackerr": an.Bools},
+		OnCall: func(it *an.Interp, name string, args []an.AV) (an.AV, bool) {
+			switch {
+			case name == "(*github.com/miekg/dns.Msg).Unpack":
+				if args[1].String() != "p2" {
+					return an.Sym("decoding other bytes"), true
+				}
+				if it.Feature("unpackerr").IsTrue() {
+					return an.NonNil("unpackErr"), true
+				}
+				return an.Nil(), true
+			case strings.HasSuffix(name, ").serveDNSMsg"):
+				return an.Sym("served(" + args[2].String() + "," + args[3].String() + ")"), true
+			}
+			return an.AV{}, false
+		},
+		Expect: func(f an.Features, o an.AOutcome) string {
+			served := o.HasCall("(*dnsserver.ServerBase).serveDNSMsg")
+			if f.B("unpackerr") {
+				if !served && o.RetString() == "false" {
+					return ""
+				}
+				return "undecodable input dropped: nothing served, written=false"
+			}
+			if served && strings.HasPrefix(o.RetString(), "served(&local#") && strings.HasSuffix(o.RetString(), ",p3)") {
+				return ""
+			}
+			return "the decoded message served with the caller's writer; got " + o.RetString()
+		},
+	})
+
+	// ---- R4b: DoH glue
+	decide(c, "C01-R4", "dnsserver.(*httpHandler).serveDoH", an.DecideCfg{
+		Dom: an.Domain{"converr": an.Bools, "written": an.Bools, "writeerr": an.Bools},
+		OnCall: func(it *an.Interp, name string, args []an.AV) (an.AV, bool) {
+			switch {
+			case name == "dnsserver.httpRequestToMsg":
+				if it.Feature("converr").IsTrue() {
+					return an.AV{Kind: an.KTuple, Tup: []an.AV{an.Nil(), an.NonNil("convErr")}}, true
+				}
+				return an.AV{Kind: an.KTuple, Tup: []an.AV{an.NonNil("bytes"), an.Nil()}}, true
+			case name == "dnsserver.NewNonWriterResponseWriter":
+				return an.NonNil("nrw"), true
+			case strings.HasSuffix(name, ").serveDNS"):
+				if len(args) == 4 && args[2].String() == "nonnil:bytes" && args[3].String() == "nonnil:nrw" {
+					return it.Feature("written"), true
+				}
+				return an.Sym("serveDNS with other arguments"), true
+			case strings.HasSuffix(name, "NonWriterResponseWriter).Msg"):
+				return an.NonNil("recorded"), true
+			case strings.HasSuffix(name, ").writeResponse"):
+				if it.Feature("writeerr").IsTrue() {
+					return an.NonNil("writeErr"), true
+				}
+				return an.Nil(), true
+			case strings.HasSuffix(name, ").remoteAddr"), name == "dnsserver.addRequestInfo":
+				return an.NonNil("x"), true
+			}
+			return an.AV{}, false
+		},
+		Expect: func(f an.Features, o an.AOutcome) string {
+			var httpErrs, writes []string
+			disposed := false
+			for _, e := range o.Effects {
+				if e.Kind != "call" {
+					continue
+				}
+				switch {
+				case e.Name == "net/http.Error":
+					httpErrs = append(httpErrs, e.Args[2])
+				case strings.HasSuffix(e.Name, ").writeResponse"):
+					writes = append(writes, e.Args[2])
+				case strings.HasSuffix(e.Name, ".Dispose"):
+					disposed = true
+				}
+			}
+			switch {
+			case f.B("converr"):
+				if len(writes) == 0 && len(httpErrs) == 1 && httpErrs[0] == "400" && !o.HasCall("(*dnsserver.ServerBase).serveDNS") {
+					return ""
+				}
+				return "HTTP 400 and nothing served for an undecodable request"
+			case !f.B("written"):
+				if len(writes) == 0 && len(httpErrs) == 1 && httpErrs[0] == "500" {
+					return ""
+				}
+				return "HTTP 500 when the pipeline wrote nothing"
+			case f.B("writeerr"):
+				if len(writes) == 1 && writes[0] == "nonnil:recorded" && len(httpErrs) == 1 && !disposed {
+					return ""
+				}
+				return "HTTP 500 (and no disposal) when writing the response failed"
+			}
+			if len(writes) == 1 && writes[0] == "nonnil:recorded" && len(httpErrs) == 0 && disposed {
+				return ""
+			}
+			return "exactly one response: the one recorded for this request"
 		},
 	})
 
